@@ -26,24 +26,28 @@ FUNCTIONS = ['pymeeus/Sun.py:Sun.get_equinox_solstice', 'pymeeus/Sun.py:Sun.equa
              'pymeeus/Epoch.py:Epoch.__iadd__', 'pymeeus/Epoch.py:Epoch.__isub__']
 
 MANIFEST = dict(
-    text=("Lean 4 theorems (Props/C14.lean) about the real-arithmetic model of Sun.get_equinox_solstice, "
+    text=("Lean 4 theorems (Props/C14.lean, 20) about the real-arithmetic model of Sun.get_equinox_solstice, "
           "Sun.equation_of_time, Epoch.rise_set and times_rise_transit_set: ValueError exactly outside years "
-          "-1000..3000 and for a bad target, Meeus' two polynomial families selected as documented; for ANY solar "
+          "-1000..3000 and for a bad target, Meeus' tables 27.A/27.B selected as documented; for ANY solar "
           "longitude function, if the season loop exits the returned instant is the last one the longitude was "
           "evaluated at and that longitude is within 2.5e-6 degree of k*90 degrees or of its antipode (partial "
           "correctness only); the equation-of-time (minutes, seconds) recombine to |E| with the sign on the minutes "
-          "(lost below one minute), and its +-180 degree reduction is proved to be the identity, i.e. NOT to reduce "
-          "(counterexample theorem; known finding); rise <= transit <= set whenever the acos argument is in [-1,1], "
-          "which is proved under |lat| + 23.44 + 0.83 + dip <= 90 degrees and refuted at latitude 66.5 (known "
+          "(lost below one minute), and its +-180 degree reduction is proved to be the identity on Angles, i.e. NOT to "
+          "reduce (counterexample theorem; known finding); rise <= transit <= set whenever the acos argument is in "
+          "[-1,1], which is proved under |lat| + 23.44 + 0.83 + dip <= 90 degrees and refuted at latitude 66.5 (known "
           "finding); times_rise_transit_set returns no times iff the body at its middle position never reaches h0. "
-          "All numerical clauses (1e-5 degree, 88-95 d, 365.2-365.3 d, 25/17.5 min, 45 s/day, 1 degree, 0.005 "
-          "degree) are measured on the implementation, not proved: all years -1000..3000 x 4 seasons in thorough."),
+          "The model's binary64 instantiation agrees with CPython bit for bit on every sampled call (the season loop "
+          "fed the solar longitudes the implementation saw). All numerical clauses (1e-5 degree, 88-95 d, "
+          "365.2-365.3 d, 25/17.5 min, 45 s/day, 1 degree, 0.005 degree) are measured on the implementation, not "
+          "proved: all years -1000..3000 x 4 seasons, 1200 whole years of daily equation-of-time values, 80000 "
+          "sunrise/sunset cases and 480000 synthetic bodies in thorough. Six defects of the implementation are "
+          "listed as known findings (findings.d/C14.json)."),
     note=("Partial. Not carried by any theorem: convergence of the season loop and which of the two solutions it "
           "converges to; every numerical bound of the statement (agreement of Meeus' series with each other is "
-          "empirical). Trusted: Lean kernel, Mathlib, axioms propext/Classical.choice/Quot.sound; the hand-written "
-          "model and its bit-exact correspondence run; Sun.apparent_geocentric_position, leap_seconds, "
-          "alpha/nutation/obliquity are parameters of the model; Epoch(jde) is the identity in the real-number "
-          "theorems; binary64 -> R idealisation."),
+          "empirical); the iteration of times_rise_transit_set beyond its None test. Trusted: Lean kernel, Mathlib, "
+          "axioms propext/Classical.choice/Quot.sound; the hand-written model and its bit-exact correspondence run; "
+          "Sun.apparent_geocentric_position, leap_seconds, alpha/nutation/obliquity are parameters of the model; "
+          "Epoch(jde) is the identity in the real-number theorems that say so; binary64 -> R idealisation."),
     technique="Lean 4 proof (Mathlib real analysis) + model/implementation correspondence check + measured predicates",
     ref='6 C14')
 
@@ -473,8 +477,46 @@ EOT_QUICK_YEARS = [-2000, -1999, -1000, -1, 0, 1000, 1582, 1800, 1900, 1992, 200
 EOT_CENTURIES = [-2000, -1000, -100, 0, 1000, 1500, 1800, 1900, 2000, 2100, 3000, 3901]
 
 
+KNOWN_KEEP = 25
+
+
+def _install_budget(ctx):
+    """The listed findings fail thousands of times in a thorough run, and the runner keeps only the first 500
+    failures of a shard.  Keep every failure that matches NO listed finding (moved to the front), and at most
+    KNOWN_KEEP stored examples per listed finding; the others are still counted as failures."""
+    import core
+    known = [k for k in core.load_known() if k.get('property') == PROPERTY]
+    counts = {}
+    orig = ctx.predicate
+
+    def predicate(name, ok, inp, detail=None, klass=None):
+        if ok:
+            return orig(name, ok, inp, detail, klass)
+        f = {'predicate': name, 'input': inp, 'detail': detail}
+        kid = None
+        for k in known:
+            if known_match(k, f):
+                kid = k['id']
+                break
+        if kid is not None:
+            counts[kid] = counts.get(kid, 0) + 1
+            if counts[kid] > KNOWN_KEEP:
+                ctx.pred_count += 1
+                kk = klass or name
+                ctx.pred_classes[kk] = ctx.pred_classes.get(kk, 0) + 1
+                ctx.pred_fail_overflow = getattr(ctx, 'pred_fail_overflow', 0) + 1
+                return
+        n = len(ctx.pred_fail)
+        orig(name, ok, inp, detail, klass)
+        if kid is None and len(ctx.pred_fail) > n:
+            ctx.pred_fail.insert(0, ctx.pred_fail.pop())
+    ctx.predicate = predicate
+    return counts
+
+
 def generate(ctx, shard=0, nshards=1):
     Sun, Epoch, Angle, C = _imports()
+    known_counts = _install_budget(ctx)
     rng = ctx.rng
     thorough = ctx.tier == 'thorough'
     hot_years = sorted(set(v for v in ctx.hot['ints'] if YMIN - 2 <= v <= YMAX + 2))
@@ -541,6 +583,8 @@ def generate(ctx, shard=0, nshards=1):
         out = run_impl(lambda: C.times_rise_transit_set(Angle(0), Angle(0), Angle(0), Angle(0), Angle(0), Angle(0), Angle(0),
                                                         Angle(0), 0.0, 0.0, Angle(0)))
         ctx.predicate('rts_bad_type_typeerror', out == 'E:TypeError', ['h0 as float'], out)
+        ctx.notes.append('failures matching a listed finding in shard 0 of %d (at most %d stored each): %s'
+                         % (nshards, KNOWN_KEEP, dict(known_counts)))
 
 
 # ------------------------------------------------------------------ known findings
